@@ -116,3 +116,23 @@ mod tests {
 		assert!(decode("-----BEGIN X-----\nTWFu\n-----END X-----", "X").is_err());
 	}
 }
+
+/// Plain RFC 7468 encoder (64-column lines, LF) used to wrap foreign DER for the PEM loaders.
+pub fn encode(label: &str, der: &[u8]) -> String {
+	const T: &[u8; 64] = b"ABCDEFGHIJKLMNOPQRSTUVWXYZabcdefghijklmnopqrstuvwxyz0123456789+/";
+	let mut b64 = String::new();
+	for c in der.chunks(3) {
+		let v = (c[0] as u32) << 16 | (*c.get(1).unwrap_or(&0) as u32) << 8 | *c.get(2).unwrap_or(&0) as u32;
+		b64.push(T[(v >> 18) as usize & 63] as char);
+		b64.push(T[(v >> 12) as usize & 63] as char);
+		b64.push(if c.len() > 1 { T[(v >> 6) as usize & 63] as char } else { '=' });
+		b64.push(if c.len() > 2 { T[v as usize & 63] as char } else { '=' });
+	}
+	let mut out = format!("-----BEGIN {label}-----\n");
+	for line in b64.as_bytes().chunks(64) {
+		out.push_str(std::str::from_utf8(line).unwrap());
+		out.push('\n');
+	}
+	out.push_str(&format!("-----END {label}-----\n"));
+	out
+}
